@@ -417,4 +417,43 @@ example : (lex {} "x = 0x1.8p+;".toList).toOption.map
     = some ([("IDENTIFIER", 1), ("SPACE", 2), ("ASSIGN", 3), ("SPACE", 4), ("CONSTANT", 5), ("SEMI_COLON", 12)],
             [("BAD_EXPONENT", [(1, 10)])]) := by decide +kernel
 
+/-- **Malformed family "several x"**: a well-formed hexadecimal floating constant with one or more further `x`/`X`
+after its `0x` — `0xx1p3`, `0xX.8p-1f` —: one CONSTANT token spanning everything and exactly one diagnostic added,
+MULTIPLE_X over the whole run of `x` (it starts one column after the `0`). -/
+theorem multiple_x_reported (u : Uni) (k : HexFloat) (hk : k.WF) (extra : List Char) (hne : extra ≠ [])
+    (hextra : ∀ c ∈ extra, c = 'x' ∨ c = 'X') (rest : List Char) (hb : boundaryOK rest)
+    (s : LexSt) (hr : s.rest = multXRender k extra ++ rest) :
+    ∃ s' t, trySubLexers u s = .ok (some (s', t)) ∧ t.type = "CONSTANT" ∧
+      t.value = some (String.ofList (multXRender k extra)) ∧ t.line = s.line ∧ t.col = s.col ∧
+      s'.rest = rest ∧
+      s'.diags = s.diags ++ [mkDiag "MULTIPLE_X" .error [⟨s.line, s.col + 1, some (extra.length + 1), none⟩]] :=
+  Norm.multiple_x_reported u k hk extra hne hextra rest hb s hr
+
+/-- Non-vacuity: `0xX1p3` through the whole lexer. -/
+example : (lex {} "y = 0xX1p3;".toList).toOption.map
+      (fun r => (r.tokens.map (fun t => (t.type, t.col)), r.diags.map (fun d => (d.name, d.highlights.map (fun h => (h.line, h.col))))))
+    = some ([("IDENTIFIER", 1), ("SPACE", 2), ("ASSIGN", 3), ("SPACE", 4), ("CONSTANT", 5), ("SEMI_COLON", 11)],
+            [("MULTIPLE_X", [(1, 6)])]) := by decide +kernel
+
+/-- **Malformed family "unknown suffix", floating constants**: a well-formed decimal floating constant whose suffix is
+replaced by a suffix-shaped text (letters, digits, underscores, not starting with a digit or `e`/`E`) that the tool's
+regenerated table does not hold — `1.5x`, `2e3ff`, `.5_t` —: one CONSTANT token spanning everything and exactly one
+diagnostic added, BAD_FLOAT_SUFFIX on the suffix (`off` = where the suffix starts). The tool's table is a superset of the
+standard's (`d`, `df`, `fi` …), so "unknown" is relative to that table. -/
+theorem bad_float_suffix_reported (u : Uni) (k : DecFloat) (hk : k.BadSfx) (rest : List Char) (hb : boundaryOK rest)
+    (s : LexSt) (hr : s.rest = k.render ++ rest) :
+    ∃ s' t off, trySubLexers u s = .ok (some (s', t)) ∧ t.type = "CONSTANT" ∧
+      t.value = some (String.ofList k.render) ∧ t.line = s.line ∧ t.col = s.col ∧ s'.rest = rest ∧
+      off + k.sfxText.length = k.render.length ∧
+      s'.diags = s.diags ++ [mkDiag "BAD_FLOAT_SUFFIX" .error [⟨s.line, s.col + off, some k.sfxText.length, none⟩]] :=
+  Norm.bad_float_suffix_reported u k hk rest hb s hr
+
+/-- Non-vacuity: `1.5x` is a member; the whole lexer reports it on the `x`. -/
+example : (DecFloat.frac "1".toList "5".toList none "x").BadSfx := by
+  refine ⟨Or.inl (by decide), by decide, by decide, (by intro y hy; cases hy), by decide, by decide⟩
+example : (lex {} "y = 1.5x;".toList).toOption.map
+      (fun r => (r.tokens.map (fun t => (t.type, t.col)), r.diags.map (fun d => (d.name, d.highlights.map (fun h => (h.line, h.col))))))
+    = some ([("IDENTIFIER", 1), ("SPACE", 2), ("ASSIGN", 3), ("SPACE", 4), ("CONSTANT", 5), ("SEMI_COLON", 9)],
+            [("BAD_FLOAT_SUFFIX", [(1, 8)])]) := by decide +kernel
+
 end Norm.C11
